@@ -154,8 +154,11 @@ def header_of(path, cls, start, length):
     stmts = []
     for st in f.body:
         t = ast.unparse(st)
-        if t.startswith('range_str') or t.startswith('if length is not None'):
-            stmts.append(st)
+        if 'parse_url' in t:
+            continue
+        if isinstance(st, ast.Try) or any(isinstance(n, ast.Await) for n in ast.walk(st)):
+            break  # the request itself: everything before it computes the header
+        stmts.append(st)
     ns = {'start': start, 'length': length}
     exec(compile(ast.Module(body=stmts, type_ignores=[]), 'range-extract', 'exec'), ns)
     return ns['range_str']
@@ -181,8 +184,69 @@ def check_http():
     return None
 
 
+# ---- the generic read_range (real function) over a specification stream and over a short-reading stream
+def check_read_range():
+    fs_ns = dict(base_ns)
+    tree = ast.parse(open(os.path.join(HT, 'aiotools/fs/fs.py')).read())
+    cls = [n for n in tree.body if isinstance(n, ast.ClassDef) and n.name == 'AsyncFS'][0]
+    fns = [n for n in cls.body if isinstance(n, ast.AsyncFunctionDef) and n.name in ('read_range', 'read_from')]
+    exec(compile(ast.Module(body=fns, type_ignores=[]), 'fs-extract', 'exec'), fs_ns)
+
+    class Stream:
+        def __init__(self, data, short):
+            self.data, self.pos, self.short = data, 0, short
+
+        async def read(self, n=-1):
+            if n == -1:
+                n = len(self.data) - self.pos
+            if self.short:
+                n = min(n, 3)  # an HTTP-like stream may hand out fewer bytes than asked while more follow
+            b = self.data[self.pos:self.pos + n]
+            self.pos += len(b)
+            return b
+
+        async def readexactly(self, n):
+            out = b''
+            while len(out) < n:
+                b = await self.read(n - len(out))
+                if not b:
+                    raise UnexpectedEOFError()
+                out += b
+            return out
+
+        async def __aenter__(self):
+            return self
+
+        async def __aexit__(self, *a):
+            return None
+
+    class FS:
+        def __init__(self, short):
+            self.short = short
+
+        async def open_from(self, url, start, *, length=None):
+            return Stream(expect(start, length), self.short)
+
+    for short in (False, True):
+        fs = FS(short)
+        for start in (0, 3, N - 1, N):
+            for end in (start - 1, start, start + 1, start + 6, N - 1, N, N + 4):
+                for incl in (True, False):
+                    n = end - start + (1 if incl else 0)
+                    if n < 0:
+                        continue
+                    try:
+                        got = asyncio.run(fs_ns['read_range'](fs, 'u', start, end, end_inclusive=incl))
+                        ok = start + n <= N and got == DATA[start:start + n]
+                    except UnexpectedEOFError:
+                        got, ok = 'UnexpectedEOFError', start + n > N
+                    if not ok:
+                        return {'confirmed': True, 'what': 'read_range does not return exactly the requested span / does not signal the unexpected end of file', 'object_size': N, 'start': start, 'end': end, 'end_inclusive': incl, 'stream_hands_out_short_reads': short, 'returned': got if isinstance(got, str) else list(got), 'expected': list(DATA[start:start + n]) if start + n <= N else 'UnexpectedEOFError'}
+    return None
+
+
 res = None
-for f in (check_local, check_http, check_azure):
+for f in (check_read_range, check_local, check_http, check_azure):
     try:
         res = f()
     except Exception as e:  # pylint: disable=broad-except
